@@ -333,6 +333,14 @@ def elem_type_of(v, interp):
     return None
 
 
+def _enum_code_size(t, interp):
+    pc = t.enum_params_class
+    if isinstance(pc, ClassInfo) and pc.resolve('get_code_size'):
+        r = interp.const_call(pc, 'get_code_size')
+        return r if isinstance(r, int) else None
+    return None
+
+
 def code_size_of(v, interp, elem=False):
     """Width written by compose_numeric(_array)_enum_coded: ``value.value.get_code_size()``."""
     t = type_of(v)
@@ -344,7 +352,12 @@ def code_size_of(v, interp, elem=False):
     if isinstance(t, tuple) and t and t[0] == 'iter' and elem:
         t = t[1]
         elem = False
-    if t is None or interp is None:
+    if isinstance(t, tuple) and t and t[0] == 'union':
+        sizes = set()
+        for m in t[1]:
+            sizes.add(code_size_of(ObjV(m), interp) if m.enum_members is None else _enum_code_size(m, interp))
+        return sizes.pop() if len(sizes) == 1 else None
+    if not isinstance(t, ClassInfo) or interp is None:
         return None
     if elem:
         # a vector of enum members: item_class is a *Factory; width through its fallback / byte num
